@@ -31,9 +31,10 @@ What the environment decides is an explicit input of each event (what http-parse
 `find_url_handler` found, whether allocations and the 101 write succeeded), so the theorems of
 `Cjet.Props.C13` hold for every such behaviour.
 
-`Version` selects historic variants of two statements so that the defects that were repaired
+`Version` selects historic variants of three statements so that the defects that were repaired
 (F17: peer created inside `on_url`; F54: connection left in the list when the event loop
-registration fails) stay available as counterexamples.
+registration fails; F55: the handler's header callbacks installed by `on_url` although the object
+they work on is created only after the start line) stay available as counterexamples.
 -/
 namespace Cjet.Http
 
@@ -82,7 +83,7 @@ inductive Phase
   deriving DecidableEq, Repr
 
 inductive Fault
-  | useAfterRelease (o : Obj)    -- read or write through a released object
+  | useAfterRelease (o : Obj)    -- read or write through an object that is not live (released, or not created yet)
   | doubleRelease (o : Obj)      -- second cjet_free / HASHTABLE_DELETE
   | doubleClose                  -- close() of the already closed descriptor
   | doubleAcquire (o : Obj)      -- the previous instance is lost
@@ -116,14 +117,20 @@ structure Version where
   createAfterStartLine : Bool
   /-- 10a3299: `init_http_connection2` unlinks the connection when the first `read_until` fails. -/
   unlinkOnAddFailure : Bool
+  /-- 9bd242d: the handler's header callbacks are installed together with `create` in
+      `read_start_line`; until then `on_url` installs refusing callbacks (before: `on_url` installed
+      the handler's callbacks at once). -/
+  callbacksWithCreate : Bool
   deriving DecidableEq, Repr
 
 /-- The code as it is. -/
-def fixed : Version := ⟨true, true⟩
+def fixed : Version := ⟨true, true, true⟩
 /-- `on_url` as it was before b38244f. -/
-def original : Version := ⟨false, true⟩
+def original : Version := ⟨false, true, false⟩
 /-- `init_http_connection2` as it was before 10a3299. -/
-def beforeF54 : Version := ⟨true, false⟩
+def beforeF54 : Version := ⟨true, false, true⟩
+/-- `on_url` / `read_start_line` as they were between b38244f and 9bd242d. -/
+def beforeF55 : Version := ⟨true, true, false⟩
 
 structure St where
   phase : Phase := .listening
@@ -292,10 +299,16 @@ def onUrl (v : Version) (handlerFound urlValid : Bool) (cr : Create) (s : St) : 
 
 def St.ended (s : St) : St := { s with phase := .done }
 
-/-- `read_start_line` with `len > 0`: one complete CRLF-terminated line. -/
-def readStartLine (v : Version) (parsedAll handlerFound urlValid : Bool) (cr : Create) (s : St) : St :=
+/-- `read_start_line` with `len > 0`: one complete CRLF-terminated line.  `headerData`: the line
+    carries header bytes behind the request line (http-parser accepts a bare LF as line end, the
+    reader cuts at CRLF), so the parser calls the installed header callbacks during this
+    `http_parser_execute` — the handler's callbacks go through `connection->parser.data`, the
+    websocket inside the peer object. -/
+def readStartLine (v : Version) (parsedAll handlerFound urlValid headerData : Bool) (cr : Create) (s : St) : St :=
   let s := s.exec (.touch .conn)
-  let s := (onUrl v handlerFound urlValid cr s).1      -- inside http_parser_execute
+  let r := onUrl v handlerFound urlValid cr s           -- inside http_parser_execute
+  let s := r.1
+  let s := if headerData && r.2 && !v.callbacksWithCreate then s.exec (.touch .peer) else s
   if !parsedAll then
     let s := if s.statusCode = 0 then { s with statusCode := 400 } else s
     (freeConnection (sendHttpError s)).ended
@@ -373,7 +386,7 @@ def terminate (s : St) : St :=
 
 inductive Event
   | accept (a : Accept)
-  | startLine (parsedAll handlerFound urlValid : Bool) (create : Create)
+  | startLine (parsedAll handlerFound urlValid headerData : Bool) (create : Create)
   | headerLine (parsedAll upgradeNow : Bool) (send101 : Option Bool)
   | eof
   | readError
@@ -390,8 +403,8 @@ def step (v : Version) (s : St) : Event → St
   | .accept a => match s.phase with
     | .listening => handleHttp v a s
     | _ => s
-  | .startLine p h u c => match s.phase with
-    | .start => readStartLine v p h u c s
+  | .startLine p h u d c => match s.phase with
+    | .start => readStartLine v p h u d c s
     | _ => s
   | .headerLine p u w => match s.phase with
     | .headers => readHeaderLine p u w s
